@@ -16,6 +16,11 @@ import (
 // C01: conservation and well-formedness of stored amounts
 
 func (c *Checker) strictAmount(table, field, raw string, prec int, row chain.Row) {
+	if raw == "" {
+		// an omitted amount field (rows of a hand-written genesis): every reader of the row takes it as zero
+		c.Counters["stored-amount:omitted(=0)"]++
+		return
+	}
 	r, places, ok := ParseStrict(raw)
 	switch {
 	case !ok:
